@@ -180,6 +180,7 @@ def inRanges (rs : Array (Nat × Nat)) (n : Nat) : Bool := Id.run do
 def kwKind : Gen.KwKind → Kind Cx
   | .delete => .delete | .cross => .cross | .as_ => .as_ | .dot => .dot | .clear => .clear
   | .unit u => .unit u
+  | .other code => kindOfCode code none
 
 def keywordLookup (w : Str) : Option (Kind Cx) :=
   let s := String.ofList w
